@@ -1117,11 +1117,23 @@ static int ck_single(char **t, int nt, bool xof) {
     outbuf_arm(&AR_OUT, &ob, place(&AR_OUT, run == 0 ? PLACE_HI : PLACE_LO, outlen, 0), outlen,
                PREFILL[run]);
     uint64_t a[10] = {0};
+    /* the chaining value is a uint32_t[8]: 4-byte alignment is all a caller owes.  Run 0 has it flush against the guard page
+     * (16-aligned), run 1 at 4, 8 or 12 modulo 16 (chosen by block_len) */
+    size_t cvshift = run == 0 ? 0 : 4 * (size_t)(1 + block_len % 3);
     if (xof) {
-      uint8_t *pcv = input_flush(&AR_CV, cv, 32);
+      uint8_t padded[48];
+      memcpy(padded, cv, 32);
+      memset(padded + 32, 0xC3, 16);
+      uint8_t *pcv = input_flush(&AR_CV, padded, 32 + cvshift);
       if (!pcv) return -1;
       a[0] = (uint64_t)(uintptr_t)pcv;
       a[5] = (uint64_t)(uintptr_t)ob.out;
+    } else if (cvshift) {
+      /* in place, at an address that is not 16-aligned: own buffer with canaries on both sides */
+      static uint8_t inplace[16 + 32 + 16 + 16] __attribute__((aligned(16)));
+      memset(inplace, 0xC3, sizeof inplace);
+      memcpy(inplace + 16 + cvshift, cv, 32);
+      a[0] = (uint64_t)(uintptr_t)(inplace + 16 + cvshift);
     } else {
       memcpy(ob.out, cv, 32); /* in place */
       a[0] = (uint64_t)(uintptr_t)ob.out;
@@ -1132,9 +1144,16 @@ static int ck_single(char **t, int nt, bool xof) {
     a[4] = narrow_arg(flags);
     fl |= call_kernel(f, fn, a);
     if (!outbuf_intact(&ob)) fl |= FLAG_CANARY;
+    const uint8_t *res = ob.out;
+    if (!xof && cvshift) {
+      const uint8_t *ip = (const uint8_t *)(uintptr_t)a[0];
+      for (size_t i = 1; i <= 16; i++)
+        if (ip[-(ptrdiff_t)i] != 0xC3 || ip[31 + i] != 0xC3) fl |= FLAG_CANARY;
+      res = ip;
+    }
     if (run == 0)
-      memcpy(first, ob.out, outlen);
-    else if (memcmp(first, ob.out, outlen) != 0)
+      memcpy(first, res, outlen);
+    else if (memcmp(first, res, outlen) != 0)
       fl |= FLAG_MISMATCH;
   }
   fl |= san_flag(sanb);
